@@ -30,6 +30,9 @@ class StandardMetrics:
             received = torch.tensor(received)
 
         # Reshape into blocks
+        transmitted, received = transmitted.reshape(-1), received.reshape(-1)
+        if block_size <= 0 or len(transmitted) == 0 or len(transmitted) % block_size != 0:
+            raise ValueError(f"Number of bits ({len(transmitted)}) must be a positive multiple of block_size ({block_size})")
         n_blocks = len(transmitted) // block_size
         transmitted_blocks = transmitted[: n_blocks * block_size].reshape(-1, block_size)
         received_blocks = received[: n_blocks * block_size].reshape(-1, block_size)
